@@ -409,8 +409,19 @@ class Harness:
         self.level_no = 0
         self.in_prop = True
         try:
-            if k: sim.c_prop(sims=int(k), seed=seed)
-            else: sim.c_prop(seed=seed)
+            for _rep in range(2 if batch.get('reprop') else 1):
+                if _rep:
+                    self.level_no = 0
+                    self.produced = {}
+                    mon.prop_id += 1
+                    if mon.tag_prod is not None:      # the inputs of the repeated propagation are the same assignment
+                        idx = [i for i in range(len(meta.snodes)) if meta.c_locs[meta.ppi_offset + i] >= 0]
+                        for i in idx:
+                            loc = int(meta.c_locs[meta.ppi_offset + i])
+                            mon.tag_prop[loc:loc + 4, :] = mon.prop_id
+                    res.count('repeated_propagations')
+                if k: sim.c_prop(sims=int(k), seed=seed)
+                else: sim.c_prop(seed=seed)
         finally:
             self.in_prop = False
         mon.k_lanes = None
